@@ -300,7 +300,16 @@ func (r *realm) createMetaSession() {
 	r.dealer.setMetaPeer(cli)
 
 	// This session is the local leg of the router uplink.
-	r.metaSess = wamp.NewSession(rtr, metaID, wamp.Dict{"authrole": "trusted"}, nil)
+	// The meta session publishes the testaments of departed clients with the
+	// options those clients gave, which may use payload passthru mode. It
+	// announces the feature, so that such a testament is published and not
+	// taken for a protocol violation that ends the meta session.
+	metaGreet := wamp.Dict{"roles": wamp.Dict{
+		wamp.RolePublisher: wamp.Dict{"features": wamp.Dict{
+			wamp.FeaturePayloadPassthruMode: true,
+		}},
+	}}
+	r.metaSess = wamp.NewSession(rtr, metaID, wamp.Dict{"authrole": "trusted"}, metaGreet)
 
 	// Run the handler for messages from the meta session.
 	go func() {
